@@ -1,0 +1,91 @@
+//go:build verif
+
+package message
+
+// Contracts for the verification framework in /verif (comment-only file,
+// compiled only with -tags verif; see /verif/DESIGN.md).
+
+//@ # what encoding/json yields for an attribute text (assumed, /verif/external/json.spec)
+//@ ghost func mjOK(s string) bool
+//@ ghost func mjIfVer(s string) int
+//@ ghost func mjUser(s string) string
+//@ ghost func mjHost(s string) string
+//@ ghost func mjVersion(s string) string
+//@ ghost func mjHardKey(s string) bool
+//@ ghost func mjTouch2SSH(s string) bool
+//@ ghost func mjCAAlgo(s string) int
+//@ ghost func mjSigAlgo(s string) int
+//@ ghost func mjHasTS(s string) bool
+//@ ghost func mjTSFF(s string) bool
+//@ ghost func mjTSHosts(s string) string
+//@ ghost func mjTSTime(s string) int
+
+//@ # ---------------------------------------------------------------- C15 / C14
+//@ func (*Attributes).sanityCheck(a)
+//@   requires a != nil
+//@   ensures result == nil <==> (a.SSHClientVersion != "" && a.Username != "" && a.Hostname != "")
+
+//@ func (*Attributes).populate(a)
+//@   requires a != nil
+//@   modifies a.TouchlessSudo
+//@   ensures a.TouchlessSudo != nil && (old(a.TouchlessSudo) != nil ==> a.TouchlessSudo == old(a.TouchlessSudo))
+//@   ensures old(a.TouchlessSudo) == nil ==> (fresh(a.TouchlessSudo) && !a.TouchlessSudo.IsFirefighter && a.TouchlessSudo.Hosts == "" && a.TouchlessSudo.Time == 0)
+
+//@ func Unmarshal(attrsStr)
+//@   flag logged
+//@   let l0 = old(calls(UnmarshalLegacy))
+//@   ensures [never-nil-on-success] err == nil ==> result0 != nil
+//@   ensures [nil-on-error] (err != nil && mjOK(attrsStr)) ==> result0 == nil
+//@   ensures [json-is-never-reread-as-legacy] mjOK(attrsStr) ==> calls(UnmarshalLegacy) == l0
+//@   ensures [json-required-fields] mjOK(attrsStr) ==> (err == nil <==> (mjVersion(attrsStr) != "" && mjUser(attrsStr) != "" && mjHost(attrsStr) != ""))
+//@   ensures [json-fields] (mjOK(attrsStr) && err == nil) ==> (fresh(result0) && result0.IfVer == mjIfVer(attrsStr) && result0.Username == mjUser(attrsStr) &&
+//@     result0.Hostname == mjHost(attrsStr) && result0.SSHClientVersion == mjVersion(attrsStr) && result0.HardKey == mjHardKey(attrsStr) &&
+//@     result0.Touch2SSH == mjTouch2SSH(attrsStr) && result0.CAPubKeyAlgo == mjCAAlgo(attrsStr) && result0.SignatureAlgo == mjSigAlgo(attrsStr) &&
+//@     result0.TouchlessSudo != nil &&
+//@     (mjHasTS(attrsStr) ==> (result0.TouchlessSudo.IsFirefighter == mjTSFF(attrsStr) && result0.TouchlessSudo.Hosts == mjTSHosts(attrsStr) && result0.TouchlessSudo.Time == mjTSTime(attrsStr))) &&
+//@     (!mjHasTS(attrsStr) ==> (!result0.TouchlessSudo.IsFirefighter && result0.TouchlessSudo.Hosts == "" && result0.TouchlessSudo.Time == 0)))
+//@   ensures [legacy-fallback] !mjOK(attrsStr) ==> (calls(UnmarshalLegacy) == l0 + 1 && arg(UnmarshalLegacy, l0, 0) == attrsStr &&
+//@     result0 == ret(UnmarshalLegacy, l0, 0) && err == ret(UnmarshalLegacy, l0, 1))
+
+//@ func (*Attributes).Marshal(a)
+//@   requires a != nil
+//@   let m0 = old(calls(MarshalLegacy))
+//@   let j0 = old(calls(json.Marshal))
+//@   ensures [required-fields-enforced] (a.SSHClientVersion == "" || a.Username == "" || a.Hostname == "") ==> (err != nil && result0 == "" &&
+//@     calls(MarshalLegacy) == m0 && calls(json.Marshal) == j0)
+//@   ensures [version-switch] (a.SSHClientVersion != "" && a.Username != "" && a.Hostname != "" && a.IfVer < 7) ==> (calls(MarshalLegacy) == m0 + 1 &&
+//@     arg(MarshalLegacy, m0, 0) == a && result0 == ret(MarshalLegacy, m0, 0) && err == ret(MarshalLegacy, m0, 1) && calls(json.Marshal) == j0)
+//@   ensures [json-from-7] (a.SSHClientVersion != "" && a.Username != "" && a.Hostname != "" && a.IfVer >= 7) ==> (calls(MarshalLegacy) == m0 &&
+//@     calls(json.Marshal) == j0 + 1 && pl(arg(json.Marshal, j0, 0)) == a && typeof(arg(json.Marshal, j0, 0)) == *Attributes &&
+//@     (err == nil <==> ret(json.Marshal, j0, 1) == nil) && (err == nil ==> result0 == str(ret(json.Marshal, j0, 0))))
+
+//@ func (*Attributes).MarshalLegacy(a)
+//@   flag logged
+//@   requires a != nil
+//@   ensures err == nil
+//@   ensures [documented-tokens-in-fixed-order] result0 ==
+//@     "IFVer=6" + " SSHClientVersion=" + a.SSHClientVersion + " req=" + a.Username + "@" + a.Hostname +
+//@     (a.HardKey ? " HardKey=true" : "") + (a.Touch2SSH ? " Touch2SSH=true" : "") +
+//@     ((a.TouchlessSudo != nil && a.TouchlessSudo.IsFirefighter) ? " IsFirefighter=true" : "") +
+//@     ((a.TouchlessSudo != nil && len(a.TouchlessSudo.Hosts) != 0) ? " TouchlessSudoHosts=" + a.TouchlessSudo.Hosts : "") +
+//@     ((a.TouchlessSudo != nil && a.TouchlessSudo.Time != 0) ? " TouchlessSudoTime=" + itoa(a.TouchlessSudo.Time) : "")
+
+//@ func parseAttrsLegacy(attrsStr)
+//@   flag logged
+//@   ensures result != nil && fresh(result)
+//@   loop 1:
+//@     invariant attrs != nil && fresh(attrs)
+
+//@ func UnmarshalLegacy(attrsStr)
+//@   flag logged
+//@   let p0 = old(calls(parseAttrsLegacy))
+//@   ensures err != nil ==> result0 == nil
+//@   ensures [legacy-shape] err == nil ==> (result0 != nil && fresh(result0) && result0.TouchlessSudo != nil && result0.Exts != nil &&
+//@     calls(parseAttrsLegacy) == p0 + 1 && arg(parseAttrsLegacy, p0, 0) == attrsStr &&
+//@     ("req" in dom(ret(parseAttrsLegacy, p0, 0))) &&
+//@     result0.SSHClientVersion == ret(parseAttrsLegacy, p0, 0)["SSHClientVersion"])
+//@   ensures [tokens-mirrored] err == nil ==> forall(k#string, k in dom(ret(parseAttrsLegacy, p0, 0)), k in dom(result0.Exts))
+//@   loop 1:
+//@     invariant a != nil && a.Exts != nil && a.TouchlessSudo != nil && fresh(a) && fresh(a.Exts) && attrs == ret(parseAttrsLegacy, p0, 0) && attrs != nil &&
+//@       calls(parseAttrsLegacy) == p0 + 1 && arg(parseAttrsLegacy, p0, 0) == attrsStr && ("req" in dom(attrs)) &&
+//@       a.SSHClientVersion == attrs["SSHClientVersion"]
